@@ -170,7 +170,8 @@ def run(prop, tier, replay=None):
                 continue
             viol[key] = dict(property=prop, formula=formula, seed=seed, case=by_id.get(case),
                              rules=[r["kind"] + " " + tmpl_text(r["tmpl"]) + " -> " + r["m"] for r in rs["rules"]],
-                             request=ev["kind"] + " " + path_text(ev["path"]), observed=ev["outs"],
+                             request=ev["kind"] + " " + path_text(ev["path"]) + ((" [with query: " + ev["qnote"] + "]") if ev.get("qnote") else ""),
+                             observed=ev["outs"],
                              registration=dict(mode=rs["mode"], src=rs["src"], orders=rs["orders"]),
                              signature=sig, more=0, replay_driver="router")
         nviol = 0
